@@ -437,7 +437,8 @@ def translate_expr(src, rel, qual, target, lean_name, types, ret_type, params,
     return emit_def(lean_name, tr, term, ret_type, params, doc), tr
 
 
-EXTRA_IMPORTS = {"InfluenceArgs": "import Mathlib.Algebra.Ring.Defs\n"}
+EXTRA_IMPORTS = {"InfluenceArgs": "import Mathlib.Algebra.Ring.Defs\n",
+                 "DynamicsAdd": "import OQuPyVerif.Model.TimeGrid\n"}
 
 HEADER = """/-
   GENERATED by tools/translate.py from /repo's working tree -- do not edit.
@@ -2625,6 +2626,12 @@ structure Read where
   kind : ReadKind
   deriving DecidableEq, Repr
 
+/-- where memoised results live: in a module-level `lru_cache` keyed on the object's identity,
+    or in a dict in the instance `__dict__` (which a shallow copy shares with its original) -/
+inductive MemoPlacement where
+  | module | instance
+  deriving DecidableEq, Repr
+
 /-- one public or memoised method of one concrete class -/
 structure MemoSite where
   cls : String
@@ -2639,6 +2646,7 @@ structure MemoSite where
   reads : List Read
   /-- memoised methods of `self` the body calls -/
   calls : List String
+  placement : MemoPlacement
   deriving DecidableEq, Repr
 
 inductive CopyKind where
@@ -2680,7 +2688,9 @@ inductive AOp where
   | npArrayC (src : Nat)                     -- y = np.array(x, dtype=.., order='C') / x.copy()
   | copyK (src : Nat)                        -- y = copy.copy(x) / np.copy(x)
   | setReadonly (tgt : Nat)                  -- x.setflags(write=False)
-  | writeData (tgt : Nat)                    -- x[..] = .. / x op= ..
+  | writeData (tgt : Nat)                    -- x[..] = .. / x op= .. / f(.., out=x)
+  | viewOf (src : Nat)                       -- y = np.moveaxis(x, ..) / x.T / x[..]  (shares x's buffer; shape not followed)
+  | computed                                 -- y = np.dot(x, ..) / util.create_delta(x, ..)  (a new array)
   deriving DecidableEq, Repr
 
 structure ArraySite where
@@ -2777,6 +2787,8 @@ def _key_decorator(tab, name):
         return None
     meth = fn.args.args[0].arg
     inner = [n for n in fn.body if isinstance(n, ast.FunctionDef)]
+    if len(inner) == 1:
+        return _key_decorator_instance(name, fn, meth, inner[0])
     if len(inner) != 2:
         raise Untranslatable("decorator %s: expected a memoised function and a wrapper" % name)
     cached, wrapper = inner
@@ -2811,7 +2823,52 @@ def _key_decorator(tab, name):
     if not (isinstance(last, ast.Return) and isinstance(last.value, ast.Name)
             and last.value.id == wrapper.name):
         raise Untranslatable("decorator %s must return its wrapper" % name)
-    return ch[1]
+    return ch[1], "module"
+
+
+def _key_decorator_instance(name, fn, meth, wrapper):
+    """The other shape understood: results kept in a dict on the instance,
+        def wrapper(self, *args, **kwargs):
+            parameters = self.<keyfn>()
+            memo = self.__dict__.setdefault(.., {})            (or self._x)
+            if <stored parameters> != parameters: memo.clear(); <store parameters>
+            key = (.., args, ..kwargs..)
+            .. memo[key] .. method(self, *args, **kwargs) ..
+    (results are discarded when the key tuple differs from the one they were computed for)."""
+    wa = wrapper.args
+    if [x.arg for x in wa.args] != ["self"] or wa.vararg is None or wa.kwarg is None:
+        raise Untranslatable("decorator %s: wrapper must be (self, *args, **kwargs)" % name)
+    keycalls = [n for n in ast.walk(wrapper) if isinstance(n, ast.Call) and attr_chain(n.func)
+                and len(attr_chain(n.func)) == 2 and attr_chain(n.func)[0] == "self"
+                and not n.args and not n.keywords]
+    keyvars = [s.targets[0].id for s in wrapper.body
+               if isinstance(s, ast.Assign) and len(s.targets) == 1 and isinstance(s.targets[0], ast.Name)
+               and s.value in keycalls]
+    if len(keycalls) != 1 or len(keyvars) != 1:
+        raise Untranslatable("decorator %s: expected `<var> = self.<key>()` once" % name)
+    kv = keyvars[0]
+    text = ast.unparse(wrapper)
+    want = "%s(self, *%s, **%s)" % (meth, wa.vararg.arg, wa.kwarg.arg)
+    if want not in text:
+        raise Untranslatable("decorator %s: wrapper must call %s" % (name, want))
+    on_instance = "self.__dict__" in text or any(
+        isinstance(n, ast.Attribute) and isinstance(n.ctx, ast.Store) and isinstance(n.value, ast.Name)
+        and n.value.id == "self" for n in ast.walk(wrapper))
+    guarded_clear = any(
+        isinstance(n, ast.If) and isinstance(n.test, ast.Compare)
+        and any(isinstance(o, (ast.NotEq, ast.Eq)) for o in n.test.ops)
+        and kv in [x.id for x in ast.walk(n.test) if isinstance(x, ast.Name)]
+        and ".clear()" in ast.unparse(n) for n in ast.walk(wrapper))
+    uses_args = wa.vararg.arg in [x.id for s in wrapper.body if isinstance(s, ast.Assign)
+                                  for x in ast.walk(s.value) if isinstance(x, ast.Name)]
+    if not (on_instance and guarded_clear and uses_args):
+        raise Untranslatable("decorator %s: cannot read where and under which key results are kept"
+                             % name)
+    last = fn.body[-1]
+    if not (isinstance(last, ast.Return) and isinstance(last.value, ast.Name)
+            and last.value.id == wrapper.name):
+        raise Untranslatable("decorator %s must return its wrapper" % name)
+    return attr_chain(keycalls[0].func)[1], "instance"
 
 
 class _MemoAnalysis:
@@ -2975,12 +3032,12 @@ class _MemoAnalysis:
                 params, va, kw = _param_names(fn)
                 if va or kw:
                     raise Untranslatable("*args/**kwargs in memoised method " + name)
-                return params, []
+                return params, [], "module"
             if isinstance(d, ast.Name) and d.id in self.tab.functions:
-                keyfn = _key_decorator(self.tab, d.id)
-                if keyfn is not None:
+                hit2 = _key_decorator(self.tab, d.id)
+                if hit2 is not None:
                     params, va, kw = _param_names(fn)
-                    return params, self.key_attrs(cls, keyfn)
+                    return params, self.key_attrs(cls, hit2[0]), hit2[1]
         return None
 
     def key_attrs(self, cls, keyfn, after=None):
@@ -3047,8 +3104,8 @@ def _c20_memo_sites(src):
                     continue                      # abstract / parameter-free method
                 if memo[m] is not None:
                     calls = [c for c in calls if c != m]
-                kp, ka = memo[m] if memo[m] is not None else ([], [])
-                sites.append((cname, m, fn.lineno, memo[m] is not None, kp, ka, reads, calls))
+                kp, ka, pl = memo[m] if memo[m] is not None else ([], [], "module")
+                sites.append((cname, m, fn.lineno, memo[m] is not None, kp, ka, reads, calls, pl))
             for attr, v in sorted(an.stored(cname).items()):
                 if v[0] == "closure":
                     closures.append((cname, attr, v[2], v[1].lineno))
@@ -3118,6 +3175,14 @@ C20_ARRAY_ENTRIES = [
     ("oqupy/mps_mpo.py", "Gate.__init__", "tensors", "tensor"),
     ("oqupy/mps_mpo.py", "AugmentedMPS.__init__", "gammas", "g"),
     ("oqupy/mps_mpo.py", "AugmentedMPS.__init__", "lambdas", "l"),
+    # process tensors: user arrays stored by the setters, and the *stored* arrays in the getters
+    # (object 0 is then the library-held tensor: it must come out of a getter unchanged)
+    ("oqupy/process_tensor.py", "SimpleProcessTensor.set_initial_tensor", "initial_tensor", None),
+    ("oqupy/process_tensor.py", "SimpleProcessTensor.set_mpo_tensor", "tensor", None),
+    ("oqupy/process_tensor.py", "SimpleProcessTensor.set_cap_tensor", "tensor", None),
+    ("oqupy/process_tensor.py", "SimpleProcessTensor.get_mpo_tensor", "self._mpo_tensors[*]", None),
+    ("oqupy/process_tensor.py", "SimpleProcessTensor.get_cap_tensor", "self._cap_tensors[*]", None),
+    ("oqupy/process_tensor.py", "SimpleProcessTensor.get_initial_tensor", "self._initial_tensor", None),
 ]
 
 # `.shape = ` stores on arrays that are not user input: (file, function) -> why
@@ -3130,7 +3195,18 @@ C20_INTERNAL_SHAPE_STORES = {
 class _ArrayFlow:
     """Follow one user array through one function body (see grammar above)."""
 
-    def __init__(self, rel, qual, fn, var, rank_branch=None):
+    VIEW_FUNCS = ("np.moveaxis", "np.swapaxes", "np.transpose", "np.squeeze", "np.expand_dims",
+                  "np.diagonal", "np.real", "np.imag", "np.ravel", "np.atleast_1d", "np.atleast_2d")
+    NEW_FUNCS = ("np.dot", "np.matmul", "np.tensordot", "np.einsum", "np.kron", "np.conj",
+                 "np.conjugate", "np.multiply", "np.add", "np.subtract", "np.exp", "np.sum",
+                 "util.create_delta", "create_delta", "np.outer", "np.linalg.multi_dot")
+
+    def __init__(self, rel, qual, fn, var, rank_branch=None, module_functions=None, depth=0):
+        self.module_functions = module_functions or {}
+        self.depth = depth
+        self.ret = None
+        self.done = {}               # id(call node) -> object it created (shared with followed helpers)
+        self.dec = {"given": [], "n": 0}     # decisions at `if`s that matter (shared likewise)
         self.rel, self.qual, self.fn, self.var = rel, qual, fn, var
         self.names = {var: 0}        # python name (or 'self._x') -> object index
         self.nobj = 1
@@ -3151,6 +3227,29 @@ class _ArrayFlow:
         ch = attr_chain(e) if isinstance(e, ast.Attribute) else None
         if ch is not None:
             return self.names.get(".".join(ch))
+        if isinstance(e, ast.Subscript) and isinstance(e.value, ast.Attribute) \
+                and attr_chain(e.value) and attr_chain(e.value)[0] == "self":
+            return self.names.get(".".join(attr_chain(e.value)) + "[*]")
+        return None
+
+    def value_obj(self, e):
+        """object an expression evaluates to, emitting the operations that create it"""
+        o = self.obj_of(e)
+        if o is not None:
+            return o
+        if isinstance(e, ast.Attribute) and e.attr in ("T", "real", "imag", "flat"):
+            src = self.value_obj(e.value)
+            if src is not None:
+                return self.new_obj("(.viewOf %d)" % src, e.lineno)
+        if isinstance(e, ast.Subscript):
+            src = self.value_obj(e.value)
+            if src is not None:
+                return self.new_obj("(.viewOf %d)" % src, e.lineno)
+        if isinstance(e, ast.Call):
+            if id(e) not in self.done:
+                self.done[id(e)] = None
+                self.done[id(e)] = self.creating_call(e)
+            return self.done[id(e)]
         return None
 
     def dim(self, e):
@@ -3213,6 +3312,61 @@ class _ArrayFlow:
             return None
         f = e.func
         fname = ".".join(attr_chain(f)) if attr_chain(f) else None
+        # f(.., out=x): the result is written into x
+        for kw in e.keywords:
+            if kw.arg == "out":
+                tgt = self.value_obj(kw.value)
+                if tgt is not None:
+                    for a in e.args:
+                        self.value_obj(a)
+                    self.ops.append("(.writeData %d)" % tgt)
+                    if self.first_line is None:
+                        self.first_line = e.lineno
+                    return tgt
+        if fname in self.VIEW_FUNCS and e.args:
+            src = self.value_obj(e.args[0])
+            if src is not None:
+                return self.new_obj("(.viewOf %d)" % src, e.lineno)
+        if isinstance(f, ast.Attribute) and f.attr in ("view", "transpose", "swapaxes", "squeeze",
+                                                       "ravel", "diagonal") \
+                and self.obj_of(f.value) is not None:
+            return self.new_obj("(.viewOf %d)" % self.obj_of(f.value), e.lineno)
+        if fname in self.NEW_FUNCS or (isinstance(f, ast.Attribute) and f.attr in
+                                       ("dot", "conj", "conjugate", "astype", "sum")):
+            srcs = [self.value_obj(a) for a in e.args]
+            if isinstance(f, ast.Attribute) and fname not in self.NEW_FUNCS:
+                srcs.append(self.value_obj(f.value))
+            if any(x is not None for x in srcs):
+                return self.new_obj("(.computed)", e.lineno)
+        # a helper of the same module: followed with the tracked array(s) bound to its parameters
+        if isinstance(f, ast.Name) and f.id in self.module_functions and self.depth < 3:
+            callee = self.module_functions[f.id]
+            pnames = [a.arg for a in callee.args.args]
+            bound = {}
+            for pn, a in zip(pnames, e.args):
+                o = self.value_obj(a)
+                if o is not None:
+                    bound[pn] = o
+            for kw in e.keywords:
+                if kw.arg in pnames:
+                    o = self.value_obj(kw.value)
+                    if o is not None:
+                        bound[kw.arg] = o
+            if bound:
+                sub = _ArrayFlow(self.rel, self.qual + ">" + f.id, callee, next(iter(bound)),
+                                 module_functions=self.module_functions, depth=self.depth + 1)
+                sub.names = dict(bound)
+                sub.nobj, sub.ops, sub.first_line = self.nobj, self.ops, self.first_line or e.lineno
+                sub.done = self.done
+                sub.dec = self.dec
+                nops = len(self.ops)
+                sub.first_line = self.first_line
+                sub.run(callee.body)
+                self.nobj = sub.nobj
+                if len(self.ops) > nops:
+                    self.first_line = sub.first_line or e.lineno
+                self.notes += ["followed into %s" % f.id] + sub.notes
+                return sub.ret
         if isinstance(f, ast.Attribute) and f.attr == "reshape":
             src = self.obj_of(f.value)
             if src is None:
@@ -3250,10 +3404,7 @@ class _ArrayFlow:
         """creating calls inside an arbitrary expression (results unnamed)"""
         for n in ast.walk(node):
             if isinstance(n, ast.Call):
-                done = getattr(n, "_c20_done", False)
-                if not done:
-                    n._c20_done = True
-                    self.creating_call(n)
+                self.value_obj(n)
 
     def run(self, stmts):
         for s in stmts:
@@ -3310,13 +3461,9 @@ class _ArrayFlow:
                 self.rank_vars.add(tname)
                 return
             # alias / creation
-            src = self.obj_of(v)
+            src = self.value_obj(v)
             if src is not None:
                 self.names[tname] = src
-                return
-            new = self.creating_call(v)
-            if new is not None:
-                self.names[tname] = new
                 return
             self.scan_calls(v)
             if tname in self.names and tname != self.var:
@@ -3385,8 +3532,37 @@ class _ArrayFlow:
                 self.run(s.body)
                 return
             self.scan_calls(test)
+            # does taking the branch matter for the tracked arrays?  try both on a copy of the state
+            def state():
+                return (dict(self.names), self.nobj, len(self.ops), dict(self.shape_vars),
+                        set(self.rank_vars), dict(self.insert_lists), set(self.list_of_shape),
+                        dict(self.done), self.ret, self.first_line, len(self.notes))
+
+            def restore(st):
+                (self.names, self.nobj, nops, self.shape_vars, self.rank_vars, self.insert_lists,
+                 self.list_of_shape, done, self.ret, self.first_line, nnotes) = \
+                    (dict(st[0]), st[1], st[2], dict(st[3]), set(st[4]), dict(st[5]), set(st[6]),
+                     st[7], st[8], st[9], st[10])
+                del self.ops[nops:]
+                del self.notes[nnotes:]
+                self.done.clear()
+                self.done.update(done)
+            before = state()
+            n0 = self.dec["n"]
             self.run(s.body)
+            after_body = (dict(self.names), self.nobj, len(self.ops), self.ret)
+            restore(before)
+            self.dec["n"] = n0
             self.run(s.orelse)
+            after_else = (dict(self.names), self.nobj, len(self.ops), self.ret)
+            restore(before)
+            self.dec["n"] = n0
+            if after_body == after_else and after_body[2] == before[2]:
+                return                       # neither branch touches the tracked arrays
+            k = self.dec["n"]
+            self.dec["n"] += 1
+            take = self.dec["given"][k] if k < len(self.dec["given"]) else True
+            self.run(s.body if take else s.orelse)
             return
         if isinstance(s, ast.For):
             self.run(s.body)
@@ -3403,6 +3579,9 @@ class _ArrayFlow:
             self.run(s.finalbody)
             return
         if isinstance(s, ast.Return) and s.value is not None:
+            r = self.value_obj(s.value)
+            if r is not None:
+                self.ret = r
             self.scan_calls(s.value)
             return
         if isinstance(s, (ast.Assert, ast.Raise, ast.Pass, ast.FunctionDef, ast.Return,
@@ -3435,20 +3614,36 @@ def _c20_array_sites(src):
                      and loopvar in [x.id for x in ast.walk(n.target) if isinstance(x, ast.Name)]]
             if not loops:
                 raise Untranslatable("%s:%s: no loop over %s binding %s" % (rel, qual, var, loopvar))
-        probe = _ArrayFlow(rel, qual, fn, track)
+        modfns = {n.name: n for n in src.tree(rel).body if isinstance(n, ast.FunctionDef)}
+        probe = _ArrayFlow(rel, qual, fn, track, module_functions=modfns)
         probe.run(fn.body)
         branches = sorted(set(probe.ranks_seen)) or [None]
         for rb in branches:
-            fl = _ArrayFlow(rel, qual, fn, track, rank_branch=rb)
-            for n in ast.walk(fn):
-                if hasattr(n, "_c20_done"):
-                    del n._c20_done
-            fl.run(fn.body)
-            if not fl.ops:
-                raise Untranslatable("%s:%s: nothing is done with %s any more" % (rel, qual, track))
-            sites.append((rel, qual, var if loopvar is None else "%s[*]" % var, fl.first_line or fn.lineno,
-                          rb or 0, fl.ops))
-            notes += ["%s:%s %s" % (rel, qual, n) for n in fl.notes if "%s:%s %s" % (rel, qual, n) not in notes]
+            # one site per combination of the `if`s that matter for the tracked arrays
+            paths, todo, seen_ops = [], [[]], []
+            while todo:
+                given = todo.pop(0)
+                fl = _ArrayFlow(rel, qual, fn, track, rank_branch=rb, module_functions=modfns)
+                fl.dec["given"] = given
+                fl.run(fn.body)
+                if fl.dec["n"] > 10:
+                    raise Untranslatable("%s:%s: too many branches touch %s" % (rel, qual, track))
+                if fl.dec["n"] > len(given):
+                    todo += [given + [True], given + [False]]
+                    continue
+                if fl.ops not in seen_ops:
+                    seen_ops.append(fl.ops)
+                    paths.append(fl)
+            if not track.startswith("self."):
+                if not any(fl.ops for fl in paths):
+                    raise Untranslatable("%s:%s: nothing is done with %s any more" % (rel, qual, track))
+                paths = [fl for fl in paths if fl.ops]
+            for k, fl in enumerate(paths):
+                sites.append((rel, qual + ("#%d" % k if len(paths) > 1 else ""),
+                              var if loopvar is None else "%s[*]" % var, fl.first_line or fn.lineno,
+                              rb or 0, fl.ops))
+                notes += ["%s:%s %s" % (rel, qual, n) for n in fl.notes
+                          if "%s:%s %s" % (rel, qual, n) not in notes]
         covered.add((rel, qual))
     # completeness: every `.shape = ` store in the anchors is accounted for
     for rel in C20_ANCHORS:
@@ -3605,12 +3800,13 @@ def frag_cachekeys(src):
     if not msites:
         raise Untranslatable("no memoised method found in " + ", ".join(C20_MEMO_FILES))
     rows = []
-    for (cls, m, line, cached, kp, ka, reads, calls) in msites:
+    for (cls, m, line, cached, kp, ka, reads, calls, pl) in msites:
         rd = _llist(["⟨%s, .%s⟩" % (_lstr(a), k) for a, k in reads])
         rows.append("  { cls := %s, method := %s, line := %d, cached := %s,\n"
-                    "    keyParams := %s, keyAttrs := %s,\n    reads := %s,\n    calls := %s }"
+                    "    keyParams := %s, keyAttrs := %s,\n    reads := %s,\n    calls := %s, "
+                    "placement := .%s }"
                     % (_lstr(cls), _lstr(m), line, "true" if cached else "false",
-                       _llist(map(_lstr, kp)), _llist(map(_lstr, ka)), rd, _llist(map(_lstr, calls))))
+                       _llist(map(_lstr, kp)), _llist(map(_lstr, ka)), rd, _llist(map(_lstr, calls)), pl))
     out.append("/-- public and memoised methods of the classes that memoise "
                "(%s) -/\ndef memoSites : List MemoSite := [\n%s\n]\n"
                % (", ".join(C20_MEMO_FILES), ",\n".join(rows)))
@@ -4147,10 +4343,30 @@ def _ff_remove(src, out):
                % (FF_REL, fn.lineno, ", ".join(steps)))
 
 
-def _ff_mode_by_overwrite(stmt, what):
-    """`if overwrite: mode = "a" else: mode = "b"` -> Lean term over `overwrite`"""
-    ok = isinstance(stmt, ast.If) and isinstance(stmt.test, ast.Name) and stmt.test.id == "overwrite" \
-        and len(stmt.body) == 1 and len(stmt.orelse) == 1
+def _ff_cond_over_overwrite(e):
+    """boolean expression over `overwrite`; every other operand (a helper call, a file
+    test, ...) becomes the free variable `other`"""
+    if isinstance(e, ast.Name) and e.id == "overwrite":
+        return "overwrite"
+    c = _ff_const_bool(e)
+    if c is not None:
+        return c
+    if isinstance(e, ast.UnaryOp) and isinstance(e.op, ast.Not):
+        return "(!%s)" % _ff_cond_over_overwrite(e.operand)
+    if isinstance(e, ast.BoolOp):
+        sym = " && " if isinstance(e.op, ast.And) else " || "
+        return "(" + sym.join(_ff_cond_over_overwrite(v) for v in e.values) + ")"
+    return "other"
+
+
+def _ff_mode_by_overwrite(stmt, what, allow_other=False):
+    """`if <cond>: mode = "a" else: mode = "b"` -> Lean term over `overwrite` (and, if allowed,
+    `other` standing for any operand of the condition that is not the caller's `overwrite`)"""
+    ok = isinstance(stmt, ast.If) and len(stmt.body) == 1 and len(stmt.orelse) == 1
+    if ok:
+        cond = _ff_cond_over_overwrite(stmt.test)
+        if "other" in cond and not allow_other:
+            ok = False
     if ok:
         vals = []
         for s in (stmt.body[0], stmt.orelse[0]):
@@ -4158,7 +4374,7 @@ def _ff_mode_by_overwrite(stmt, what):
                     and s.targets[0].id == "mode" and isinstance(s.value, ast.Constant):
                 vals.append(_ff_lean_str(s.value.value))
         if len(vals) == 2:
-            return "if overwrite then %s else %s" % tuple(vals)
+            return "if %s then %s else %s" % (cond, vals[0], vals[1])
     raise Untranslatable("%s: expected `if overwrite: mode = … else: mode = …`" % what)
 
 
@@ -4416,8 +4632,9 @@ def _ff_pttempo(src, out):
                "  if %s then (if %s then PtChoice.fileNamed else PtChoice.fileTemp) else PtChoice.simple\n"
                % (rel, node.lineno, ast.unparse(node.test), ast.unparse(inner.test), test, t2))
     fn2 = src.function(rel, "PtTempo._init_file_process_tensor")
-    ifs = [s for s in fn2.body if isinstance(s, ast.If) and isinstance(s.test, ast.Name)
-           and s.test.id == "overwrite"]
+    ifs = [s for s in fn2.body if isinstance(s, ast.If) and any(
+        isinstance(n, ast.Assign) and isinstance(n.targets[0], ast.Name) and n.targets[0].id == "mode"
+        for n in ast.walk(s))]
     if len(ifs) != 1:
         raise Untranslatable("PtTempo._init_file_process_tensor: mode selection")
     calls = [s for s in fn2.body if isinstance(s, ast.Assign) and
@@ -4425,9 +4642,33 @@ def _ff_pttempo(src, out):
     if len(calls) != 1:
         raise Untranslatable("PtTempo._init_file_process_tensor: constructor call")
     _ff_ctor_passes_mode(calls[0].value, "PtTempo._init_file_process_tensor")
-    out.append("/-- %s:%d  PtTempo._init_file_process_tensor: overwrite ↦ mode -/\n"
-               "def ptTempoMode (overwrite : Bool) : String := %s\n"
-               % (rel, ifs[0].lineno, _ff_mode_by_overwrite(ifs[0], "_init_file_process_tensor")))
+    # `overwrite` must reach _init_file_process_tensor unchanged from both entry points
+    fn3 = src.function(rel, "pt_tempo_compute")
+    ctor = [n for n in ast.walk(fn3) if isinstance(n, ast.Call) and attr_chain(n.func) == ["PtTempo"]]
+    if len(ctor) != 1:
+        raise Untranslatable("pt_tempo_compute: PtTempo(...) call")
+    params = [a.arg for a in fn.args.args if a.arg != "self"]
+    passed = {}
+    for k, a in enumerate(ctor[0].args):
+        passed[params[k]] = ast.unparse(a)
+    for k in ctor[0].keywords:
+        passed[k.arg] = ast.unparse(k.value)
+    if passed.get("overwrite") != "overwrite" or passed.get("process_tensor_file") != "process_tensor_file":
+        raise Untranslatable("pt_tempo_compute: overwrite/process_tensor_file not passed through")
+    for n in ast.walk(fn3):
+        if isinstance(n, ast.Assign) and any(isinstance(t, ast.Name) and t.id == "overwrite"
+                                             for t in n.targets):
+            raise Untranslatable("pt_tempo_compute: overwrite reassigned")
+    for n in list(ast.walk(fn)) + list(ast.walk(fn2)):
+        if isinstance(n, ast.Assign) and any(isinstance(t, ast.Name) and t.id == "overwrite"
+                                             for t in n.targets):
+            raise Untranslatable("PtTempo: overwrite reassigned")
+    out.append("/-- %s:%d  PtTempo._init_file_process_tensor: `%s` — (the caller's overwrite, any "
+               "other operand of the condition) ↦ mode; pt_tempo_compute and PtTempo.__init__ pass "
+               "`overwrite` through unchanged -/\n"
+               "def ptTempoMode (overwrite other : Bool) : String := %s\n"
+               % (rel, ifs[0].lineno, " ".join(ast.unparse(ifs[0]).split()),
+                  _ff_mode_by_overwrite(ifs[0], "_init_file_process_tensor", allow_other=True)))
 
 
 def _ff_setter(src, out, prop, lean_name):
@@ -5267,6 +5508,7 @@ TE_SKIP_CLASSES = ("GibbsTempo",)
 TE_PROBES = {
     ("oqupy/system.py", "TimeDependentSystem.__init__", "self._hamiltonian(1.0)"),
     ("oqupy/system.py", "TimeDependentSystemWithField.__init__", "self._hamiltonian(1.0, 1.0 + 1j)"),
+    ("oqupy/system.py", "MeanFieldSystem.__init__", "system.hamiltonian(1.0, 1.0 + 1j)"),
 }
 
 TE_ROLES = {
@@ -5277,7 +5519,7 @@ TE_ROLES = {
     # durations / field values: invariant reals
     "dt": "D", "dt_": "D", "ratio": "D", "max_tau": "D", "field": "D", "field_derivative": "D",
     # integers
-    "step": "I", "num_steps": "I", "start_step": "I", "index": "I", "index_start": "I",
+    "num": "I", "step": "I", "num_steps": "I", "start_step": "I", "index": "I", "index_start": "I",
     "index_end": "I", "a": "I", "max_step": "I", "num_step": "I", "end_step": "I",
 }
 # per function: names that mean something else there (None = not a time-related name)
@@ -5285,7 +5527,11 @@ TE_OVERRIDES = {
     # the parsed `times` of compute_correlations_nt are integer step arrays
     ("oqupy/system_dynamics.py", "compute_correlations_nt"): {"times": "I"},
     # delay times 0..max_tau of the bath correlation function, not absolute times
-    ("oqupy/tempo.py", "_estimate_dt_dkmax_from_bath"): {"times": None},
+    ("oqupy/tempo.py", "_estimate_dt_dkmax_from_bath"): {"times": None, "new_times": "D"},
+    # `time` of add_single is a step (int) or a time (float); it is only stored as a key
+    ("oqupy/control.py", "Control.add_single"): {"time": None},
+    ("oqupy/tempo.py", "_analyse_correlation"): {"times": None, "additional_times": "D",
+                                                 "new_times": None},
 }
 
 # positional arguments of the callees through which times travel: role per position
@@ -5302,6 +5548,12 @@ TE_CALLEES = {
     "get_number_of_steps": {3: ["T", "T", "D"]},
     "_get_num_step": {2: ["I", "T"]},
     "_parse_times": {4: [None, "I", "D", "T"]},
+    # guess_tempo_parameters: the sample times handed to the user's callables / the bath's
+    # correlation function (a function of the delay)
+    "hamt": {1: ["T"]},
+    "hamiltonian": {1: ["T"], 2: ["T", None]},
+    "operator": {1: ["T"]},
+    "corr_func": {1: ["D"]},
 }
 # keyword arguments (of any call) / dict keys that carry a time or the step length
 TE_KEYWORDS = {"start_time": "T", "end_time": "T", "dt": "D"}
@@ -5325,9 +5577,6 @@ TE_ALLOW_ASSIGN = {
      "times = _parse_times(ops_times[i], max_step, dt_, start_time)"),
     ("oqupy/control.py", "Control.__init__",
      "self._control_times = {'pre': np.array([]), 'post': np.array([])}"),
-    # guess_tempo_parameters samples the Hamiltonian on numpy's linspace between the two ends
-    ("oqupy/tempo.py", "_estimate_dt_from_system",
-     "times = np.linspace(start_time, end_time, num, endpoint=True)"),
 }
 
 
@@ -5455,6 +5704,14 @@ class _TEWalker:
                 if isinstance(a, ast.Call) and ".".join(attr_chain(a.func) or []) in ("np.round", "round"):
                     return self.texpr(a)
                 return "(.trunc %s)" % self.texpr(a)
+            if nm == "np.linspace" and len(e.args) == 3 and self.is_int(e.args[2]) \
+                    and all(k.arg == "endpoint" and isinstance(k.value, ast.Constant)
+                            and k.value.value is True for k in e.keywords):
+                # element k < num-1 of numpy's linspace:  arange(num)*((stop-start)/(num-1)) + start
+                a, b = self.texpr(e.args[0]), self.texpr(e.args[1])
+                div = "(.ofI (.isub %s (.ilit (1))))" % self.iexpr(e.args[2])
+                return "(.add %s (.mul (.ofI (.ivar %d)) (.div (.sub %s %s) %s)))" % (
+                    a, self.ivar("k"), b, a, div)
             if last in TE_PASSTHROUGH and e.args:
                 return self.texpr(e.args[0])
             if last in TE_TIME_OF_STEP and len(e.args) == 1 and not e.keywords \
@@ -5531,12 +5788,17 @@ def _te_functions(tree):
     return out
 
 
-def _te_scan(rel, qual, fn, inherited, sites):
+def _te_roles_for(rel, qual):
     roles = dict(TE_ROLES)
     for (r, q), ov in TE_OVERRIDES.items():
         if r == rel and (qual == q or qual.startswith(q + ".")):
             roles.update(ov)
-    roles = {k: v for k, v in roles.items() if v is not None}
+    return {k: v for k, v in roles.items() if v is not None}
+
+
+def _te_scan(rel, qual, fn, inherited, sites):
+    """`inherited`: function index  name -> [(file, qualname, formal parameter names)]"""
+    roles = _te_roles_for(rel, qual)
     nodes = _te_own_nodes(fn)
     covered = set()
     found = []          # (sink, role, expr node, stmt node)
@@ -5597,6 +5859,40 @@ def _te_scan(rel, qual, fn, inherited, sites):
                 for i, r in enumerate(pos or []):
                     if r is not None:
                         add("%s_arg%d" % (cal.lstrip("_"), i), r, node.args[i], node)
+            # calls between functions of the scanned files: the role of the FORMAL parameter is
+            # the sink of the ACTUAL argument (a duration bound to a parameter that the callee
+            # uses as an absolute time gets role `time` and fails its obligation)
+            if inherited is not None and table is None and cal in inherited \
+                    and cal not in TE_CALLEES and not cal.startswith("__"):
+                cands = [c for c in inherited[cal] if c[0] == rel] or inherited[cal]
+                sigs = {tuple(c[2]) for c in cands}
+                if len(sigs) == 1:
+                    formals = list(sigs)[0]
+                    croles = _te_roles_for(cands[0][0], cands[0][1])
+                    binds = []
+                    for i, a in enumerate(node.args):
+                        if isinstance(a, ast.Starred) or i >= len(formals):
+                            break
+                        binds.append((formals[i], a))
+                    for kw in node.keywords:
+                        if kw.arg in formals and kw.arg not in TE_KEYWORDS:
+                            binds.append((kw.arg, kw.value))
+                    for f, a in binds:
+                        r = croles.get(f)
+                        if r is None or (isinstance(a, ast.Constant) and a.value is None):
+                            continue
+                        if r == "I" and not _te_mentions_time(a, roles):
+                            continue            # plain integer bookkeeping
+                        try:
+                            _TEWalker(roles).texpr(a)
+                        except Untranslatable as ex:
+                            if r == "T" or _te_mentions_time(a, roles):
+                                raise Untranslatable(
+                                    "%s:%d %s: argument `%s` bound to the %s parameter `%s` of %s: %s"
+                                    % (rel, node.lineno, qual, _te_norm(a)[:80],
+                                       "time" if r == "T" else "invariant", f, cal, ex))
+                            continue
+                        add("%s_param_%s" % (cal.lstrip("_"), f), r, a, node)
             kws = dict(TE_KEYWORDS)
             kws.update(TE_KEYWORDS_OF.get(cal, {}))
             for kw in node.keywords:
@@ -5788,6 +6084,13 @@ TE_REQUIRED = [
 @fragment("TimeExprs")
 def frag_timeexprs(src):
     sites = []
+    index = {}
+    for rel, only in TE_FILES:
+        for qual, fn in _te_functions(src.tree(rel)):
+            formals = [a.arg for a in fn.args.args]
+            if formals[:1] in (["self"], ["cls"]):
+                formals = formals[1:]
+            index.setdefault(qual.split(".")[-1], []).append((rel, qual, formals))
     for rel, only in TE_FILES:
         tree = src.tree(rel)
         for qual, fn in _te_functions(tree):
@@ -5796,7 +6099,7 @@ def frag_timeexprs(src):
             if any(TE_SKIP_FUNCTIONS(p) for p in qual.split(".")) \
                     or qual.split(".")[0] in TE_SKIP_CLASSES:
                 continue
-            _te_scan(rel, qual, fn, None, sites)
+            _te_scan(rel, qual, fn, index, sites)
     # names: <qual>__<sink>[_n]
     count = {}
     for s in sites:
@@ -9310,14 +9613,22 @@ def _bs_integrands(src, out, qual, pre):
 def _bs_complex_integral(src, out):
     fn = src.function(BS_REL, "_complex_integral")
     body = _bs_body(fn)
-    want = ["re_int = integrate.quad(lambda x: np.real(integrand(x)), a=a, b=b, epsrel=epsrel, limit=limit)[0]",
-            "im_int = integrate.quad(lambda x: np.imag(integrand(x)), a=a, b=b, epsrel=epsrel, limit=limit)[0]",
-            "return re_int + 1j * im_int"]
-    if [_bs_norm(s) for s in body] != want:
-        raise Untranslatable("_complex_integral: unexpected shape %r" % [_bs_norm(s) for s in body])
+    texts = [_bs_norm(s) for s in body]
+    found = None
+    for eps_txt, eps_lean in (("", "none"), (" epsabs=0.0,", "some 0")):
+        want = ["re_int = integrate.quad(lambda x: np.real(integrand(x)), a=a, b=b,%s epsrel=epsrel, limit=limit)[0]" % eps_txt,
+                "im_int = integrate.quad(lambda x: np.imag(integrand(x)), a=a, b=b,%s epsrel=epsrel, limit=limit)[0]" % eps_txt,
+                "return re_int + 1j * im_int"]
+        if texts == want:
+            found = eps_lean
+    if found is None:
+        raise Untranslatable("_complex_integral: unexpected shape %r" % texts)
     out.append("/-- %s:%d  _complex_integral(f, a, b) = Q(re ∘ f) + 1j * Q(im ∘ f) with one real "
                "quadrature functional Q = integrate.quad(·, a, b, epsrel, limit)[0] -/\n"
-               "def complexIntegral_splits_re_im : Bool := true\n" % (BS_REL, fn.lineno))
+               "def complexIntegral_splits_re_im : Bool := true\n"
+               "/-- the absolute tolerance handed to quad: `none` = scipy's default (1.49e-8), "
+               "`some 0` = purely relative tolerance -/\n"
+               "def quadratureEpsabs : Option Rat := %s\n" % (BS_REL, fn.lineno, found))
 
 
 def _bs_cutoffs(src, out):
@@ -10823,7 +11134,48 @@ inductive AddOp where
         raise Untranslatable("_find_list_index is not `bisect(sorted_list, entry_value)`")
     out.append("/-- `_find_list_index` is `bisect.bisect` (= bisect_right) -/\n"
                "def find_list_index_is_bisect_right : Bool := true\n")
+    # the read-only views: built from the live lists on every read, or kept?
+    out.append("open OQuPyVerif.TimeGrid\n")
+    for cls, prop, lst, dty, name in (
+            ("BaseDynamics", "times", "_times", "NpDtypeReal", "dynamics_times_read"),
+            ("BaseDynamics", "states", "_states", "NpDtype", "dynamics_states_read"),
+            ("MeanFieldDynamics", "times", "_times", "NpDtypeReal", "mfd_times_read"),
+            ("MeanFieldDynamics", "fields", "_fields", "NpDtype", "mfd_fields_read")):
+        fn = _da_property(src, "oqupy/dynamics.py", cls, prop)
+        body = [st for st in fn.body if not (isinstance(st, ast.Expr) and isinstance(st.value, ast.Constant))]
+        texts = ["".join(ast.unparse(st).split()) for st in body]
+        live = "returnnp.array(self.%s,dtype=%s)" % (lst, dty)
+        kind = None
+        if texts == [live]:
+            kind = ".live"
+        elif len(body) == 2 and isinstance(body[0], ast.If) and isinstance(body[1], ast.Return):
+            import re as _re
+            m = _re.fullmatch(r"ifself\.(\w+)isNone:self\.(\w+)=np\.array\(self\.%s,dtype=%s\)" % (lst, dty),
+                              texts[0])
+            if m and m.group(1) == m.group(2) and texts[1] == "returnself.%s" % m.group(1):
+                kind = ".memo"
+        if kind is None:
+            raise Untranslatable("%s.%s: neither `return np.array(self.%s, dtype=%s)` nor a "
+                                 "build-once cache of it: %s" % (cls, prop, lst, dty, " ; ".join(texts)[:120]))
+        out.append("/-- oqupy/dynamics.py:%d  %s.%s -/\ndef %s : ReadKind := %s\n"
+                   % (fn.lineno, cls, prop, name, kind))
+    fn = _da_property(src, "oqupy/dynamics.py", "BaseDynamics", "__len__", prop=False)
+    if ["".join(ast.unparse(st).split()) for st in fn.body] != ["returnlen(self._times)"]:
+        raise Untranslatable("BaseDynamics.__len__ is not len(self._times)")
     return "\n".join(out)
+
+
+def _da_property(src, rel, cls, name, prop=True):
+    node = src.tree(rel)
+    for c in node.body:
+        if isinstance(c, ast.ClassDef) and c.name == cls:
+            for f in c.body:
+                if isinstance(f, ast.FunctionDef) and f.name == name:
+                    if prop and not any(isinstance(d, ast.Name) and d.id == "property"
+                                        for d in f.decorator_list):
+                        continue
+                    return f
+    raise Untranslatable("cannot find %s.%s in %s" % (cls, name, rel))
 
 
 # ---------------------------------------------------------------------------
@@ -11048,6 +11400,59 @@ def frag_corrbath(src):
                              {"corr_mat_dim": "Int", "dt": "Flt"}, "Flt", ["corr_mat_dim", "dt"],
                              "%s:%d  occupation: last_time = %s  (corr_mat_dim = len(process_tensor))"
                              % (rel, hs[0].lineno, ast.unparse(hs[0].value))))
+    # the time axis returned by occupation()
+    hs = src.assignment(focc, "tlist")
+    if len(hs) != 1:
+        raise Untranslatable("occupation: tlist")
+    tv = hs[0].value
+    doc = "%s:%d  occupation: tlist = %s" % (rel, hs[0].lineno, ast.unparse(tv))
+    TY = {"corr_mat_dim": "Int", "dt": "Flt", "last_time": "Flt", "k": "Int"}
+
+    def arange_args(n):
+        if isinstance(n, ast.Call) and attr_chain(n.func) == ["np", "arange"] and not n.keywords:
+            return n.args
+        return None
+    if isinstance(tv, ast.BinOp) and isinstance(tv.op, ast.Mult) and (
+            (arange_args(tv.left) is not None and len(arange_args(tv.left)) == 1)
+            or (arange_args(tv.right) is not None and len(arange_args(tv.right)) == 1)):
+        ar, other = (tv.left, tv.right) if arange_args(tv.left) is not None else (tv.right, tv.left)
+        tr = _C07Tr(TY)
+        cnt = tr.expr(arange_args(ar)[0])
+        if cnt[1] != "Int" or any(v not in ("corr_mat_dim",) for v in tr.free):
+            raise Untranslatable("occupation: tlist count %s" % ast.unparse(ar))
+        tr2 = _C07Tr(TY)
+        kk = ast.Name(id="k", ctx=ast.Load())
+        lab = tr2.expr(ast.BinOp(left=kk, op=ast.Mult(), right=other) if ar is tv.left
+                       else ast.BinOp(left=other, op=ast.Mult(), right=kk))
+        if lab[1] != "Flt" or any(v not in ("k", "dt") for v in tr2.free):
+            raise Untranslatable("occupation: tlist label %s" % ast.unparse(tv))
+        out.append("/-- %s ;  true: an integer range scaled by dt, false: a float-stepped np.arange -/\n"
+                   "def occupation_tlist_by_count : Bool := true\n"
+                   "/-- number of returned times -/\n"
+                   "def occupation_tlist_count (corr_mat_dim : Int) (dt : Rat) : Int :=\n  %s\n"
+                   "/-- the k-th returned time -/\n"
+                   "def occupation_tlist_label (corr_mat_dim : Int) (dt : Rat) (k : Int) : Rat :=\n  %s\n"
+                   % (doc, cnt[0], lab[0]))
+    elif arange_args(tv) is not None and len(arange_args(tv)) == 3:
+        a0, a1, a2 = arange_args(tv)
+        tr = _C07Tr(TY)
+        t0, t1, t2 = tr.to_flt(tr.expr(a0)), tr.to_flt(tr.expr(a1)), tr.to_flt(tr.expr(a2))
+        if any(v not in ("corr_mat_dim", "dt", "last_time") for v in tr.free):
+            raise Untranslatable("occupation: tlist = %s" % ast.unparse(tv))
+        let = "let last_time : Rat := occupation_last_time corr_mat_dim dt\n  "
+        out.append("/-- %s ;  true: an integer range scaled by dt, false: a float-stepped np.arange -/\n"
+                   "def occupation_tlist_by_count : Bool := false\n"
+                   "/-- number of returned times: numpy's ceil((stop - start)/step) in binary64 -/\n"
+                   "def occupation_tlist_count (corr_mat_dim : Int) (dt : Rat) : Int :=\n  %s"
+                   "ceilInt (fdiv (fsub %s %s) %s)\n"
+                   "/-- the k-th returned time: start + k*step -/\n"
+                   "def occupation_tlist_label (corr_mat_dim : Int) (dt : Rat) (k : Int) : Rat :=\n  %s"
+                   "fadd %s (fmul (ofInt k) %s)\n" % (doc, let, t1, t0, t2, let, t0, t2))
+    else:
+        raise Untranslatable("occupation: tlist = %s" % ast.unparse(tv))
+    vals = [ast.unparse(h.value) for h in src.assignment(focc, "bath_occupation")]
+    out.append("/-- how the returned occupation values are built (one per column sum, plus the "
+               "leading 0) -/\ndef occupation_values : List String := %s\n" % _c07_lstrs(vals))
     # other int()/np.round/np.floor/np.ceil conversions in the class would be a new site
     fcls = src.function(rel, "TwoTimeBathCorrelations")
     conv = sorted(ast.unparse(n) for n in ast.walk(fcls) if isinstance(n, ast.Call)
